@@ -28,6 +28,8 @@ PLView(pl) ==
                                             parts |-> [j \in 1..Len(pl.ent[i].parts) |-> [id |-> pl.ent[i].parts[j].id, dur |-> pl.ent[i].parts[j].dur, ind |-> pl.ent[i].parts[j].ind]]]],
         open |-> [j \in 1..Len(pl.open) |-> [id |-> pl.open[j].id, dur |-> pl.open[j].dur, ind |-> pl.open[j].ind]]]
 
+InitView(is) == [s \in 1..Len(is) |-> IF is[s].ok # 1 THEN [ok |-> is[s].ok]
+                    ELSE [ok |-> 1, tracks |-> [i \in 1..Len(is[s].tracks) |-> [t |-> is[s].tracks[i].t, scale |-> is[s].tracks[i].scale, gen |-> is[s].tracks[i].gen]]]]
 UnitView(u) == [id |-> u.id, dts |-> u.dts, dur |-> u.dur, sync |-> u.sync]
 EmitsView(es) ==
   [i \in 1..Len(es) |-> [s |-> es[i].s, kind |-> es[i].kind, id |-> es[i].id,
@@ -61,7 +63,8 @@ TraceWrite ==
               same == /\ (m1.err <=> w.ok = 0)
                       /\ (w.ok = 1 =>
                             /\ [s \in 1..NS(cfg) |-> PLView(ob.pl[s])] = [s \in 1..NS(cfg) |-> PLView(w.pl[s])]
-                            /\ (NoEmit(cfg) \/ EmitsView(ob.emit) = EmitsView(w.emit)))
+                            /\ (NoEmit(cfg) \/ EmitsView(ob.emit) = EmitsView(w.emit))
+                            /\ (cfg.variant = "mpegts" \/ InitView(ob.init) = InitView(w.init)))
           IN IF same THEN mm' = MarkSeen(cfg, m1) /\ mode' = "ok"
              ELSE mm' = mm /\ mode' = "drift" /\ PrintT(<<"DRIFT", l>>)
      ELSE mm' = mm /\ mode' = mode
